@@ -7,6 +7,10 @@ import LitexProofs.Bridge.DownBytes
 import LitexProofs.Bridge.Up
 import LitexProofs.Bridge.Ahb2Wb
 import LitexProofs.Bridge.Axi2Axl
+import LitexProofs.Bridge.Adapter
+import LitexProofs.Bridge.DownRW
+import LitexProofs.Bridge.Chain
+import LitexModel.Bridge.NumChain
 /-
   C09 — Bus bridges and AXI-Lite converters preserve memory semantics and protocol rules.
 
@@ -22,6 +26,71 @@ import LitexProofs.Bridge.Axi2Axl
   transaction histories, all master timings allowed by the protocol (`reqHeld` is the only assumption: a
   presented request is repeated until accepted), all partner latencies/timings, and all configurations
   (address width, lane count, address shift, base address are variables).
+-/
+/-
+  INVENTORY of the anchored code (session 2).  "tie": A = exhaustive product co-exploration of model and netlist with
+  both sides open, B = seeded lock-step co-simulation with protocol environments, D = differential over an enumerated
+  grid of constructor arguments, M = model-independent monitors only (flat memory / stability / errors / bursts /
+  progress).
+
+  file / class or function                     | Lean model                           | theorems                                   | tie
+  ---------------------------------------------+--------------------------------------+--------------------------------------------+------
+  axi_lite_to_wishbone.py
+    AXILite2Wishbone                           | Bridge/Axl2Wb (+ Closed: sys/osys/   | axl2wb_refines_mem, _valid_stable, _fair,  | A B M
+                                               |  fsys)                               |  _err_partial (+ negative witness)         |
+    Wishbone2AXILite                           | Bridge/Wb2Axl                        | wb2axl_refines_mem, _valid_stable, _err,   | A B M
+                                               |                                      |  _base_address                             |
+  axi_full_to_axi_lite.py
+    AXI2AXILite                                | Bridge/Axi2Axl (AXIBurst2Beat: C10's | axi2axl_read_burst_partial, _bursts_partial| A B M
+                                               |  Litex.Axi.b2b*)                     |  (3 negative witnesses), _as_built         |
+    AXILite2AXI (write_id/read_id/prot/burst)  | Bridge/Axi2Axl: Axl2Axi (stateless)  | axl2axi_wiring (every input, all params)   | B M
+  axi_full_to_wishbone.py
+    AXI2Wishbone                               | composition numAxi2Wb (Num.lean)     | per-element theorems; byte map             | A B M
+    Wishbone2AXI                               | composition numWb2Axi                |  adapter_elem_preserves_byte               | A B M
+  axi_lite_to_csr.py
+    AXILite2CSR (register=False/True unused)   | Bridge/Simple: Axl2Csr               | axl2csr_refines_regs                       | A B M
+  axi_lite.py
+    ax/w/b/r_lite_description, AXILiteInterface| port records Ports.lean (widths =    | -                                          | field widths checked (c09lib.field_widths)
+                                               |  harness parameters)                 |                                            |
+    AXILiteInterface.write/read (sim helpers)  | not modelled (test-bench generators) | -                                          | -
+    AXILiteRemapper                            | not modelled (C13/C14: address maps) | -                                          | -
+    axi_lite_to_simple                         | Bridge/Simple                        | axlsram_refines_mem, axl2csr_refines_regs  | A B M
+    AXILiteSRAM (size / Memory / default bus,  | Bridge/Simple: AxlSram, Closed:      | axlsram_refines_mem                        | A B M
+      read_only)                               |  AxlSramM                            |                                            |
+    _AXILiteDownConverterWrite                 | Bridge/Down: DownW                   | axldown_write_refines_mem,                 | A B M
+                                               |                                      |  _write_stable_sticky, _reference_is_byte_ |
+                                               |                                      |  memory, axldown_rw_* (reads + writes      |
+                                               |                                      |  interleaved)                              |
+    _AXILiteDownConverterRead                  | Bridge/Down: DownR                   | axldown_read_refines_mem,                  | A B M
+                                               |                                      |  _read_stable_sticky, axldown_rw_*         |
+    AXILiteDownConverter                       | Down.machine (product)               | axldown_rw_* over ONE shared memory        | A B M
+    AXILiteUpConverter                         | Bridge/Up                            | axlup_lane_partial (+ negative witness),   | A B M
+                                               |                                      |  axlup_passthrough                         |
+    AXILiteConverter (down / up / direct)      | Adapter.converterChoice              | converter_choice_total                     | D B M
+    AXILiteClockDomainCrossing                 | not here (C05: CDC)                  | -                                          | -
+    AXILiteTimeout, _AXILiteRequestCounter,    | not here (C08 interconnect, C11      | -                                          | -
+      AXILiteArbiter, AXILiteDecoder,          |  timeouts)                           |                                            |
+      AXILiteInterconnect*, AXILiteCrossbar    |                                      |                                            |
+  ahb.py
+    AHBTransferType, ahb_description,          | constants / port record in           | -                                          | A B
+      AHBInterface                             |  Bridge/Ahb2Wb                       |                                            |
+    AHB2Wishbone                               | Bridge/Ahb2Wb                        | ahb2wb_sel_table, _refines_mem, _resp      | A B M
+  soc.py
+    SoCBusHandler.add_adapter                  | Bridge/Adapter: adapterChain         | adapter_result_is_bus,                     | D (all combinations) + B M
+      bus_data_width_convert                   |   widthStep                          |  adapter_chain_linked,                     |  on 20 built chains
+      bus_addressing_convert                   |   addrStep (+ elemByte wbAddressing) |  adapter_elem_preserves_byte,              | D + netlist wiring
+      bus_standard_convert                     |   stdStep, bridgeOf                  |  adapter_chain_preserves_bytes             | D
+    (wishbone.Converter, AXIConverter: C07/C10;| elemByte: their byte maps only       |  (same theorems)                           | D (wishbone.Converter byte map)
+      selected here)                           |                                      |                                            |
+    chain AXILiteDownConverter ; AXILite2Wishbone | Chain.machine / Chain.sys (ClosedChain,  | chain_down_axl2wb_protocol (any Wishbone   | B (real add_adapter chain
+      (built by add_adapter, axi-lite/wide ->  |  NumChain)                           |  partner, all ports), chain_sys_is_tied_   |  vs composite) M
+      wishbone/narrow)                         |                                      |  machine                                   |
+  Cycle-level composition is proved for ONE chain shape (down-converter ; AXILite2Wishbone: protocol legality on every
+  port for any Wishbone partner).  For the other chains the chain theorem is at the transaction level (which byte of
+  the flat memory a byte lane of a master transfer is carried to) and the protocol interplay of the composed elements
+  is tied by monitors on the built chains.  Not done: AXILite2CSR over the C12 bank model (the bank truncates and
+  splits registers into words; it does not refine the simple register file of axl2csr_refines_regs without a new
+  abstraction); memory refinement (data) of a composed chain at cycle level.
 -/
 namespace Litex.C09
 open Litex Litex.Bridge
@@ -274,6 +343,70 @@ example :
     DownR.wideRd c (Mem.ofList [0, 0, 0, 0, 0x11, 0x22, 0x33, 0x44]) 6 = 0x44332211 := by
   simp [DownR.wideRd, DownR.pack, DownR.subWord, DownCfg.subAddr, DownCfg.nbFrom, Mem.readWord, Mem.readBytes,
     Mem.ofList, bytesWord, List.range, List.range.loop]
+
+/-- **Down-converter, reads and writes interleaved** (any ratio ≥ 1).  `AXILiteDownConverter` as a whole — both FSMs
+    running concurrently — in front of ONE narrow AXI-Lite byte memory that accepts, executes and answers narrow reads
+    and narrow writes in any order and at any time, for every protocol-following wide master that issues reads and
+    writes in any interleaving (AR while a write is in flight, AW/W while a read is being assembled, …):
+    * write side, whatever the read traffic: everything `axldown_write_refines_mem` states (one OKAY B per accepted
+      AW+W, repeated until taken; the reference memory takes the wide write at its B; memory = reference between
+      writes);
+    * memory window, in EVERY cycle: the partner memory is the reference memory with the first `j ≤ ratio` sub-word
+      writes of the write in flight applied (`Down.Window`; `j = 0`: equal to the reference);
+    * read side, whatever the write traffic: one OKAY R per accepted AR, repeated unchanged until taken, never a
+      second acceptance while one is pending, and its data is assembled (lowest address in the least significant
+      lanes) from narrow word `k` of the addressed wide word AS IT WAS IN THE PARTNER MEMORY IN THE CYCLE NARROW READ
+      `k` WAS EXECUTED (`snap k`, `k = 0 … ratio-1`) — by the window statement each of these is the reference content
+      with a prefix of the concurrent write applied: a read overlapping a write sees, per narrow word, the old or the
+      new value, never anything else; a read that overlaps no write sees the reference memory
+      (`axldown_read_refines_mem`). -/
+theorem axldown_rw_refines_mem (c : DownCfg) (hr : 0 < c.ratio) (mem0 : Mem) (ins : List (AxlM × AxlOracle)) :
+    let S := Down.sys c mem0
+    S.LegalFrom (fun s i => s.g.reqHeld i.1) S.init ins →
+    S.AlwaysFrom (fun s i =>
+        s.g.rspHeld (S.out s i).1 ∧
+        ((S.out s i).1.bvalid = true → s.g.pendAW.isSome ∧ s.g.pendW.isSome ∧ (S.out s i).1.bresp = respOkay) ∧
+        (i.1.awvalid = true → (S.out s i).1.awready = true → s.g.pendAW = none) ∧
+        (i.1.wvalid = true → (S.out s i).1.wready = true → s.g.pendW = none) ∧
+        (s.w.st = .idle → s.p.mem = s.g.ref) ∧
+        Down.Window c s.p.mem s.g ∧
+        ((S.out s i).1.rvalid = true →
+           ∃ a, s.g.pendAR = some a ∧ (S.out s i).1.rresp = respOkay ∧
+             (S.out s i).1.rdata = DownR.pack c (Down.snapWord c s.snap a) c.ratio) ∧
+        (i.1.arvalid = true → (S.out s i).1.arready = true → s.g.pendAR = none)) S.init ins := by
+  intro S
+  refine Machine.always_of_invariant S _ _ (Down.CInv c) (fun s i hinv hok => ?_) ins S.init ?_
+  · exact Down.cstep c hr s i hinv hok
+  · have : 0 < (256 ^ c.nbTo) ^ c.ratio := Nat.pow_pos (Nat.pow_pos (by decide))
+    simp [S, Down.sys, Down.CInv, Down.projW, DownW.Inv, Down.RInv, DownW.init, DownR.init, AxlMem.init, AxlGhost.init,
+      this]
+
+/-- Non-vacuity, and what overlap means (16→8, memory initially `mem a = a`): the master presents a write of 0xBEEF
+    and a read of the same wide word (address 4) together; the partner executes narrow read 0 before narrow write 0,
+    then withholds narrow read 1 until the write has completed.  The run is legal; the read returns 0xBE04 — low byte
+    old (4), high byte new (0xBE) — exactly `pack` of the two snapshots, and both lie in the window of their cycle. -/
+example :
+    let c : DownCfg := { ratio := 2, nbTo := 1, abits := 8 }
+    let S := Down.sys c (fun a => a)
+    let rw : AxlM := { AxlM.idle with awvalid := true, awaddr := 4, wvalid := true, wdata := 0xBEEF, wstrb := 3,
+                                      arvalid := true, araddr := 4, rready := true, bready := true }
+    let o : AxlOracle := ⟨true, true, true, true, true, true, true⟩
+    let o' : AxlOracle := ⟨true, true, true, true, false, true, true⟩
+    let ins := List.replicate 4 (rw, o) ++ List.replicate 4 (rw, o') ++ List.replicate 2 (rw, o)
+    let s := S.runFrom S.init ins
+    S.LegalFrom (fun s i => s.g.reqHeld i.1) S.init ins ∧
+    (S.out s (rw, o)).1.rvalid = true ∧ (S.out s (rw, o)).1.rdata = 0xBE04 ∧ s.p.mem 4 = 0xEF ∧ s.p.mem 5 = 0xBE ∧
+    s.snap 0 4 = 4 ∧ s.snap 1 5 = 0xBE := by
+  refine ⟨?_, ?_, ?_, ?_, ?_, ?_, ?_⟩
+  · exact Machine.legal_of_legalB _ _ (fun s i => Down.reqHeldB s.g i.1) (fun s i h => Down.reqHeld_of_B s.g i.1 h) _ _
+      (by decide)
+  all_goals decide
+
+/-- The window at byte level: with `j = ratio` the window memory is the reference memory after ONE masked write of
+    the wide word (`axldown_reference_is_byte_memory`), with `j = 0` the reference memory itself. -/
+theorem axldown_window_ends (c : DownCfg) (m : Mem) (a d st : Nat) :
+    DownW.subWrites c a d st 0 m = m ∧ DownW.subWrites c a d st c.ratio m = DownW.wideWr c m a st d :=
+  ⟨rfl, rfl⟩
 
 /-- **Down-converter writes: valid stability towards ANY narrow partner, sticky first error.**  Whatever the
     narrow slave does (arbitrary readies, valids and responses every cycle), with a protocol-following wide master:
@@ -532,4 +665,179 @@ theorem ahb2wb_resp (s : AhbState) (m : AhbM) (r : WbS) :
   cases h : s.st <;> simp [Ahb2Wb.toMaster, h]
 
 end AhbThms
+/-! ## SoCBusHandler.add_adapter: which adapters are inserted, and what the chain does to a byte -/
+section AdapterThms
+open Litex.Bridge.Adapter
+
+/-- **The adapted interface is the bus's.**  Whenever `add_adapter` succeeds — any interface standard / width /
+    addressing, any bus, both directions — the interface it hands back has the bus's standard and data width. -/
+theorem adapter_result_is_bus (b : BusDesc) (m2s : Bool) (i : IfDesc) (l : List Elem) (o : IfDesc)
+    (h : adapterChain b m2s i = .ok (l, o)) : o.std = b.std ∧ o.dw = b.dw :=
+  adapterChain_result b m2s i l o h
+
+/-- **The chain is a chain.**  Read from the master end, consecutive elements share an interface, the first
+    element's master side is the master end (m2s: the interface handed in; s2m: the bus side) and the last element's
+    slave side is the slave end. -/
+theorem adapter_chain_linked (b : BusDesc) (m2s : Bool) (i : IfDesc) (l : List Elem) (o : IfDesc)
+    (h : adapterChain b m2s i = .ok (l, o)) :
+    Linked (masterToSlave m2s l) (if m2s then i else o) (if m2s then o else i) :=
+  adapterChain_linked b m2s i l o h
+
+/-- **Every element preserves the flat byte address** (any well-formed element, any transfer its master port can
+    express): byte lane `lane` of a master-side transfer at address `x` is carried on the slave-side (address, lane)
+    that names the same byte of the flat memory — with the address functions of the cycle-level models
+    (`Axl2Wb.wbAdr`, `Wb2Axl.axAddr`, `DownCfg.subAddr`, `UpCfg.laneOf`, `haddr >> shift`) — and stays within the
+    slave port's range. -/
+theorem adapter_elem_preserves_byte (e : Elem) (hwf : e.WF) (p : Nat × Nat) (hr : InRange e.master p) :
+    flat e.slave (elemByte e p) = flat e.master p ∧ InRange e.slave (elemByte e p) :=
+  ⟨elem_preserves_byte e hwf p hr, elem_in_range e hwf p hr⟩
+
+/-- **Composition: the chain `add_adapter` builds preserves memory semantics at the byte level.**  For every
+    interface (standard, width `8·2^k`, addressing), every bus (standard, width `8·2^k`) of the same address width,
+    both directions, whenever `add_adapter` succeeds: every byte lane of every transfer the master end can express is
+    carried, through all inserted elements (width converter, addressing glue, bridge, in the order the code inserts
+    them), to the (address, lane) of the slave end that names the SAME byte of the flat memory, and stays in range.
+    Together with the per-element refinement theorems (each element in front of a flat byte memory behaves as a flat
+    byte memory with exactly these address functions) this is the transaction-level composition lemma; the
+    cycle-level interplay of the composed elements is checked by monitors on the built chains. -/
+theorem adapter_chain_preserves_bytes (b : BusDesc) (m2s : Bool) (i : IfDesc) (l : List Elem) (o : IfDesc)
+    (h : adapterChain b m2s i = .ok (l, o)) (hi : PowOk i.dw) (hb : PowOk b.dw) (haw : i.aw = b.aw)
+    (hli : lg i.dw ≤ b.aw) (hlb : lg b.dw ≤ b.aw) (p : Nat × Nat) (hr : InRange (if m2s then i else o) p) :
+    flat (if m2s then o else i) (chainByte (masterToSlave m2s l) p) = flat (if m2s then i else o) p ∧
+    InRange (if m2s then o else i) (chainByte (masterToSlave m2s l) p) :=
+  adapterChain_preserves b m2s i l o h hi hb haw hli hlb p hr
+
+/-- **The byte maps are the cycle-level models' address functions** (every state, every input): the Wishbone address
+    `AXILite2Wishbone` drives for a read, the AXI-Lite address `Wishbone2AXILite` drives, the narrow AW address of
+    the down-converter's sub-word `counter` and the wide address of the up-converter are the addresses `elemByte`
+    assigns to the corresponding element (so the transaction-level chain theorem and the cycle-level refinement
+    theorems speak about the same addresses). -/
+theorem adapter_elem_uses_bridge_addresses (m s : IfDesc) (x lane : Nat) :
+    (∀ (st : A2WState) (q : AxlM), st.st = .doRead → q.araddr = x →
+      (Axl2Wb.toSlave { aw := m.aw, nb := m.nb, shift := if s.byteAddr then 0 else lg s.dw, base := 0 } st q).adr =
+        (elemByte { kind := .axl2wb, master := m, slave := s } (x, lane)).1) ∧
+    (∀ (st : W2AState) (q : WbM), st.st = .read → q.adr = x →
+      (Wb2Axl.toSlave { adrBits := m.aw - (if m.byteAddr then 0 else lg m.dw),
+                        shift := if m.byteAddr then 0 else lg m.dw, base := 0 } st q).araddr =
+        (elemByte { kind := .wb2axl, master := m, slave := s } (x, lane)).1) ∧
+    (∀ (st : DownWState) (q : AxlM) (r : AxlS), m.nb > s.nb → q.awaddr = x → st.counter = lane / s.nb →
+      (DownW.toSlave { ratio := m.nb / s.nb, nbTo := s.nb, abits := m.aw } st q r).awaddr =
+        (elemByte { kind := .axlConverter, master := m, slave := s } (x, lane)).1) ∧
+    (∀ (st : UpState) (q : AxlM), m.nb < s.nb → q.awaddr = x →
+      (Up.toSlave { ratio := s.nb / m.nb, nbFrom := m.nb, abits := s.aw } st q).awaddr =
+        (elemByte { kind := .axlConverter, master := m, slave := s } (x, lane)).1) := by
+  refine ⟨fun st q h1 h2 => ?_, fun st q h1 h2 => ?_, fun st q r h1 h2 h3 => ?_, fun st q h1 h2 => ?_⟩
+  · simp [Axl2Wb.toSlave, h1, h2, elemByte]
+  · simp [Wb2Axl.toSlave, h1, h2, elemByte]
+  · cases h : st.st <;> simp [DownW.toSlave, h, h1, h2, h3, elemByte, AxlM.idle]
+  · have h3 : ¬ m.nb > s.nb := by omega
+    simp [Up.toSlave, h1, h2, h3, elemByte]
+
+/-- Non-vacuity: a 64-bit AXI-Lite master on a 32-bit Wishbone bus gets `AXILiteConverter(64→32)` followed by
+    `AXILite2Wishbone`; byte lane 5 of the transfer at 0x1008 (flat byte 0x100D) arrives on lane 1 of Wishbone word
+    0x403; the hypotheses of the composition theorem hold. -/
+example :
+    let b : BusDesc := { std := .wishbone, dw := 32, aw := 32 }
+    let i : IfDesc := { std := .axiLite, dw := 64, aw := 32, byteAddr := true }
+    let w : IfDesc := { std := .wishbone, dw := 32, aw := 32, byteAddr := false }
+    let n : IfDesc := { std := .axiLite, dw := 32, aw := 32, byteAddr := true }
+    adapterChain b true i = .ok ([{ kind := .axlConverter, master := i, slave := n },
+                                  { kind := .axl2wb, master := n, slave := w }], w) ∧
+    chainByte [{ kind := .axlConverter, master := i, slave := n }, { kind := .axl2wb, master := n, slave := w }]
+      (0x1008, 5) = (0x403, 1) ∧ flat i (0x1008, 5) = 0x100D ∧ flat w (0x403, 1) = 0x100D ∧
+    PowOk i.dw ∧ PowOk b.dw ∧ lg i.dw ≤ b.aw ∧ InRange i (0x1008, 5) := by
+  refine ⟨rfl, rfl, rfl, rfl, ?_, ?_, ?_, ?_⟩ <;> simp only [PowOk, InRange] <;> decide
+
+/-- What the code rejects: a byte-addressed Wishbone interface of another width (`wishbone.Converter` asserts word
+    addressing), an AHB master on a bus that is not Wishbone (no bridge in the table), an AHB interface of another
+    width (no converter class). -/
+example :
+    adapterChain { std := .axiLite, dw := 64, aw := 32 } false { std := .wishbone, dw := 32, aw := 32, byteAddr := true }
+      = .error .assertionError ∧
+    adapterChain { std := .axi, dw := 32, aw := 32 } true { std := .ahb, dw := 32, aw := 32, byteAddr := true }
+      = .error .keyError ∧
+    adapterChain { std := .wishbone, dw := 64, aw := 32 } true { std := .ahb, dw := 32, aw := 32, byteAddr := true }
+      = .error .keyError :=
+  ⟨rfl, rfl, rfl⟩
+
+/-- The converter wrappers (`AXILiteConverter`, `wishbone.Converter`, `AXIConverter`) choose exactly one of
+    down-converter / up-converter / direct connection, by comparing the two data widths. -/
+theorem converter_choice_total (f t : Nat) :
+    (converterChoice f t = 1 ↔ t < f) ∧ (converterChoice f t = 2 ↔ f < t) ∧ (converterChoice f t = 0 ↔ f = t) := by
+  unfold converterChoice
+  refine ⟨?_, ?_, ?_⟩ <;> split <;> (try split) <;> omega
+
+/-- `AXILite2AXI` is wiring for every input and every parameter choice: valids, readies, addresses, data, strobes
+    pass through, each AXI-Lite access becomes a single-beat burst (`len = 0`, `w.last = 1`) of the configured
+    size / burst type / ids. -/
+theorem axl2axi_wiring (c : L2XCfg) (m : AxlM) (r : AxiS) :
+    let q := Axl2Axi.toSlave c m
+    let o := Axl2Axi.toMaster r
+    q.awvalid = m.awvalid ∧ q.aw.addr = m.awaddr ∧ q.aw.len = 0 ∧ q.aw.size = c.size ∧ q.aw.burst = c.burst ∧
+    q.aw.id = c.wid ∧ q.wvalid = m.wvalid ∧ q.wdata = m.wdata ∧ q.wstrb = m.wstrb ∧ q.wlast = true ∧
+    q.bready = m.bready ∧ q.arvalid = m.arvalid ∧ q.ar.addr = m.araddr ∧ q.ar.len = 0 ∧ q.ar.size = c.size ∧
+    q.ar.burst = c.burst ∧ q.ar.id = c.rid ∧ q.rready = m.rready ∧
+    o.awready = r.awready ∧ o.wready = r.wready ∧ o.bvalid = r.bvalid ∧ o.bresp = r.bresp ∧ o.arready = r.arready ∧
+    o.rvalid = r.rvalid ∧ o.rresp = r.rresp ∧ o.rdata = r.rdata := by
+  simp [Axl2Axi.toSlave, Axl2Axi.toMaster]
+
+end AdapterThms
+
+/-! ## A chain composed at cycle level: AXILiteDownConverter ; AXILite2Wishbone -/
+section ChainThms
+
+/-- **Protocol legality of a composed chain, any Wishbone partner.**  The chain `add_adapter` builds for a wide
+    AXI-Lite master on a narrower Wishbone bus (`AXILiteDownConverter` then `AXILite2Wishbone`, sharing the narrow
+    AXI-Lite interface), with a protocol-following wide master and a Wishbone partner that answers ANYTHING
+    (arbitrary `ack` / `dat_r` / `err` every cycle), for every ratio, width, base address:
+    on the internal narrow port every AW / W / AR the converter raises is repeated unchanged until accepted and every
+    B / R the bridge raises is repeated unchanged until taken; the Wishbone request is repeated unchanged until its
+    `ack`; the wide B is repeated until taken and carries the first non-OKAY narrow response of this write, the wide
+    R the first non-OKAY narrow response of this read.
+    (Assume / guarantee composition: the converter's "any partner" guarantee on the narrow port is exactly what the
+    bridge assumes of its master; each constituent's invariant is reused through a simulation.) -/
+theorem chain_down_axl2wb_protocol (c : DownCfg) (d : A2WCfg) (ins : List (AxlM × WbS)) :
+    let S := Chain.sys c d
+    S.LegalFrom (fun s i => s.g.reqHeld i.1) S.init ins →
+    S.AlwaysFrom (fun s i =>
+      let o := S.out s i
+      s.h.reqHeld o.2.1 ∧ s.k.reqHeld o.2.2.2 ∧ s.h.rspHeld o.2.2.1 ∧
+      (∀ r, s.g.heldB = some r → o.1.bvalid = true ∧ o.1.bresp = r) ∧
+      (o.1.bvalid = true → o.1.bresp = firstErr s.wlog) ∧
+      (o.1.rvalid = true → o.1.rresp = firstErr s.rlog)) S.init ins := by
+  intro S
+  refine Machine.always_of_invariant S _ _ (Chain.CInv c d) (fun s i hinv hok => ?_) ins S.init ?_
+  · exact Chain.cstep c d s i hinv hok
+  · simp [S, Chain.sys, Chain.CInv, Chain.projW, Chain.projR, Chain.projB, Chain.dropR, Chain.dropW, DownW.OInv,
+      DownR.OInv, Axl2Wb.OInv, DownW.init, DownR.init, Axl2Wb.init, AxlGhost.init, WbGhost.init]
+
+/-- The observed composite is the machine the driver serves and the harness co-simulates against the chain the real
+    `add_adapter` builds (`chaindw …`): same outputs, same state evolution. -/
+theorem chain_sys_is_tied_machine (c : DownCfg) (d : A2WCfg) (s : Chain.Sys) (i : AxlM × WbS) :
+    let M := Chain.machine c d
+    let S := Chain.sys c d
+    ((S.out s i).1, (S.out s i).2.2.2) = M.out (s.w, s.r, s.b) i ∧
+    ((S.next s i).w, (S.next s i).r, (S.next s i).b) = M.next (s.w, s.r, s.b) i :=
+  ⟨rfl, rfl⟩
+
+/-- Non-vacuity: 64→32 chain, a held write of 0x1122334455667788 to 0x1008 against a Wishbone partner that
+    acknowledges every other cycle: legal for 12 cycles, and the two Wishbone writes (words 0x402, 0x403) were issued. -/
+example :
+    let c : DownCfg := { ratio := 2, nbTo := 4, abits := 32 }
+    let d : A2WCfg := { aw := 32, nb := 4, shift := 2, base := 0 }
+    let S := Chain.sys c d
+    let w : AxlM := { AxlM.idle with awvalid := true, awaddr := 0x1008, wvalid := true, wdata := 0x1122334455667788,
+                                     wstrb := 0xFF, bready := true }
+    let a0 : WbS := { ack := false, datr := 0, err := false }
+    let a1 : WbS := { ack := true, datr := 0, err := false }
+    let ins := [(w, a0), (w, a1), (w, a0), (w, a1), (w, a0), (w, a1), (w, a0), (w, a1), (w, a0), (w, a1), (w, a0), (w, a1)]
+    S.LegalFrom (fun s i => s.g.reqHeld i.1) S.init ins ∧
+    (S.out (S.runFrom S.init (ins.take 3)) (w, a1)).2.2.2.adr = 0x402 ∧
+    (S.out (S.runFrom S.init (ins.take 3)) (w, a1)).2.2.2.datw = 0x55667788 := by
+  refine ⟨?_, ?_, ?_⟩
+  · exact Machine.legal_of_legalB _ _ (fun s i => Down.reqHeldB s.g i.1) (fun s i h => Down.reqHeld_of_B s.g i.1 h) _ _
+      (by decide)
+  all_goals decide
+
+end ChainThms
 end Litex.C09
